@@ -174,6 +174,19 @@ CHECKS["C10"] = dict(
          "statement is proved.",
     technique="Lean 4 proof (case analysis of the rendering loop; list induction for items) + model/implementation correspondence",
     design="6 C10")
+CHECKS["C17"] = dict(
+    text="Lean 4 theorems: with acceptable arguments every ListProxy operation (append, insert, extend, +=, index / slice / extended-slice "
+         "assignment from any iterable, pop, remove, delete, reverse, clear, *=) equals the same operation of a specified built-in list "
+         "on the normalised items, and every DictProxy operation (item assignment, update in all call forms, setdefault, |=, pop, "
+         "popitem, delete, clear) equals the built-in dict's (refinement, by cases on the operation); a typed list only ever holds "
+         "validation results after any operation, acceptable or not, including a half-finished extend, along whole histories "
+         "(induction); rejected single-element insertions leave list and dict unchanged (C06). Correspondence three-way: the real proxy, "
+         "a plain built-in replaying the history with field-validated arguments, and the model; result types of copy and + checked.",
+    note="Cinco/Proxy/PyList.lean and the association-list dict are hand-written specifications of CPython's list/dict, validated "
+         "three-way. sort, slice deletion and the non-mutating queries are inherited unchanged and checked by the stream only. "
+         "proxy * k, plain + proxy and proxy | mapping return plain built-ins by Python's own dispatch (observation).",
+    technique="Lean 4 proof (refinement to a specified built-in; invariant by induction over histories) + three-way correspondence",
+    design="6 C17")
 PENDING = ["C01", "C02", "C03", "C04", "C05", "C06", "C07", "C08", "C09", "C10", "C11", "C12", "C13", "C14", "C15", "C16",
            "C17", "C19", "C20"]
 
